@@ -8,14 +8,14 @@ from extract import Ann
 NAME = "V-rvspace"
 SRC = "oxmpl/src/base/spaces/real_vector_state_space.rs"
 SOURCES = [SRC]
-PRELUDE = ["core.rs", "spaces.rs"]
-SERVES = ["C10", "C11", "C12", "C04"]
+PRELUDE = ["core.rs", "spaces.rs", "sampling.rs"]
+SERVES = ["C10", "C11", "C12", "C04", "C14"]
 FUNCTIONS = [SRC + "::RealVectorStateSpace::" + f for f in ("new", "interpolate", "enforce_bounds", "satisfies_bounds", "sample_uniform")]
 # functions whose contract pins an exact float expression (see check.py: a failure counts only with a concrete failing input)
-PROXY_FUNCTIONS = ["interpolate", "satisfies_bounds"]
+PROXY_FUNCTIONS = {"interpolate": ["C10", "C11", "C12", "C04", "C14"], "satisfies_bounds": ["C10", "C11", "C12", "C04", "C14"], "sample_uniform": ["C14"]}
 TRUSTED = ["RealVectorStateSpace::distance, get_maximum_extent and get_longest_valid_segment_length (no listed property constrains the resolution of R^n itself) are external_body in this unit (iterator adapters; covered by bounded Kani harnesses)",
            "struct RealVectorState { values: Vec<f64> } is prelude text of this unit",
-           "rand's random_range(lo..hi) on f64 returns lo <= v < hi when lo < hi (stub rng_random_range_f64; its panic condition `empty range` is the precondition)",
+           "rand's random_range(lo..hi) on f64 is a deterministic function of the generator state (prelude sampling.rs: draw_f64 / after_draw) and returns lo <= v < hi when lo < hi (its panic conditions are the precondition); that the value is UNIFORM and successive draws independent is rand's documented law, assumed",
            "vec![x; n] as the stub vec_repeat (length n, every element x)",
            "f64::clamp is the uninterpreted function f64_fn3(1, ..) with axiom ax_clamp (audited by the Layer-0 Kani harness ax_clamp); unit rule RV5 (iter_mut().enumerate() -> index loop)",
            "EXACT f64 axioms ax_sub_pos_le / ax_add_pos_ge (a - e <= a <= a + e for finite e > 0, a not NaN) and f64::EPSILON > 0: audited by Layer-0 Kani harnesses of the same names"]
@@ -49,7 +49,9 @@ PRELUDE_EDITS = [
     ("    fn enforce_bounds(&self, state: &mut Self::StateType);\n",
      "    spec fn interp_rel(&self, from: &Self::StateType, to: &Self::StateType, t: f64, out: &Self::StateType) -> bool; spec fn enforce_rel(&self, before: &Self::StateType, after: &Self::StateType) -> bool; fn enforce_bounds(&self, state: &mut Self::StateType) requires self.state_ok(old(state)), self.space_ok(), ensures self.enforce_rel(old(state), final(state)), self.state_ok(final(state));     //@ space.enforce_bounds.law [C11]\n"),
     ("        requires seeded_mode() ==> old(rng).det(),                  //@ space.sample_uniform.det [C07]\n        ensures final(rng).det() == old(rng).det(),\n            r is Ok ==> self.sample_set(&r->Ok_0);\n",
-     "        requires self.space_ok(), seeded_mode() ==> old(rng).det(),                  //@ space.sample_uniform.det [C07]\n        ensures final(rng).det() == old(rng).det(),\n            r is Ok ==> self.sample_set(&r->Ok_0);     //@ space.sample_uniform.law [C11,C04]\n"),
+     "        requires self.space_ok(), seeded_mode() ==> old(rng).det(),                  //@ space.sample_uniform.det [C07]\n        ensures final(rng).det() == old(rng).det(), r is Ok ==> self.sample_draws(*old(rng), *final(rng), &r->Ok_0),     //@ space.sample_uniform.draws [C14]\n            r is Ok ==> self.sample_set(&r->Ok_0);     //@ space.sample_uniform.law [C11,C04]\n"),
+    ("    spec fn sample_set(&self, s: &Self::StateType) -> bool;      // the states sample_uniform can return\n",
+     "    spec fn sample_set(&self, s: &Self::StateType) -> bool; spec fn sample_draws<R>(&self, g0: R, g1: R, s: &Self::StateType) -> bool;\n"),
 ]
 
 A = []
@@ -70,12 +72,6 @@ pub fn assert_eq_usize(a: usize, b: usize)      // unit rule: assert_eq!(a, b, "
 pub fn vec_repeat(x: (f64, f64), n: usize) -> (r: Vec<(f64, f64)>)      // unit rule RV1: vec![x; n]
     ensures r@.len() == n, forall|i: int| 0 <= i < n ==> r@[i] == x,
 { vec![x; n] }
-#[verifier::external_body]
-pub fn rng_random_range_f64<R: Rng>(rng: &mut R, lo: f64, hi: f64) -> (r: f64)      // unit rule RV2: rng.random_range(lo..hi)
-    requires flt(lo, hi), f64_pred(1, hi.sub_spec(lo)),      //@ rng.random_range.nonempty_finite [C08]
-             seeded_mode() ==> old(rng).det(),
-    ensures final(rng).det() == old(rng).det(), fle(lo, r), flt(r, hi),
-{ unimplemented!() }
 // EXACT axioms (audited by Layer-0 Kani harnesses of the same names)
 pub axiom fn ax_eps_pos() ensures flt(0.0f64, spec_f64_const(1)), f64_pred(1, spec_f64_const(1));
 pub axiom fn ax_sub_pos_le(a: f64, e: f64) requires flt(0.0f64, e), f64_pred(1, e), !fnan(a) ensures fle(a.sub_spec(e), a);
@@ -144,6 +140,13 @@ ann('impl#2', 'impl-start', r'''
         &&& self.in_bounds_spec(after)                                                                                                                            //@ enforced_satisfies_bounds [C11]
         &&& forall|i: int| 0 <= i < self.dimension ==> f64_fn3(1, #[trigger] after.values@[i], self.bounds@[i].0, self.bounds@[i].1) == after.values@[i] || fnan(after.values@[i])    //@ enforce_idempotent [C11]
     }
+    /// C14: coordinate i of the sample IS the i-th draw random_range(lower_i..upper_i) from the caller's generator -- one draw per
+    /// coordinate, in order, no other use of the generator and no post-processing (with rand's law: independent uniform coordinates)
+    open spec fn sample_draws<R>(&self, g0: R, g1: R, s: &RealVectorState) -> bool {
+        &&& s.values@.len() == self.dimension
+        &&& forall|i: int| 0 <= i < self.dimension ==> #[trigger] s.values@[i] == draw_f64(nth_gen(g0, i as nat), self.bounds@[i].0, self.bounds@[i].1)      //@ sample_is_product_of_draws [C14]
+        &&& g1 == nth_gen(g0, self.dimension as nat)                                                                                                 //@ sample_uses_dimension_draws [C14]
+    }
     /// C11: a sample has one coordinate per dimension, each inside [lower, upper) of its interval; it satisfies the bounds (lemma below)
     open spec fn sample_set(&self, s: &RealVectorState) -> bool {
         &&& s.values@.len() == self.dimension
@@ -197,6 +200,8 @@ ann('fn sample_uniform', 'loop for#1', r'''
                 <f64 as SubSpec>::obeys_sub_spec(), <f64 as PartialOrdSpec<f64>>::obeys_partial_cmp_spec(),
                 self.wf(), values@.len() == i,
                 rng.det() == old(rng).det(), seeded_mode() ==> rng.det(),
+                *rng == nth_gen(*old(rng), i as nat),
+                forall|j: int| 0 <= j < i ==> #[trigger] values@[j] == draw_f64(nth_gen(*old(rng), j as nat), self.bounds@[j].0, self.bounds@[j].1),      //@ prefix_drawn [C14]
                 forall|j: int| 0 <= j < i ==> fle(self.bounds@[j].0, #[trigger] values@[j]) && flt(values@[j], self.bounds@[j].1),      //@ prefix_sampled [C11,C04]
 ''', 'rv.sample.loop', tags=['C11', 'C04'])
 ann('fn sample_uniform', 'before /Ok\(RealVectorState \{ values \}\)/', r'''
